@@ -73,6 +73,18 @@ impl PathAndMetadata {
             link_metadata,
         })
     }
+
+    /// Returns the identifier of the device that holds the directory entry of the path.
+    /// For a symbolic link that is the device of the link itself, not of its target.
+    /// A hard link replacing the path must be created on that device.
+    pub fn entry_device_id(&self) -> u64 {
+        #[cfg(unix)]
+        if let Some(link_metadata) = &self.link_metadata {
+            use std::os::unix::fs::MetadataExt;
+            return link_metadata.dev();
+        }
+        self.metadata.device_id()
+    }
 }
 
 impl AsRef<PathAndMetadata> for PathAndMetadata {
@@ -1070,7 +1082,7 @@ where
             let mut commands = Vec::new();
             if let Some(group) = fetch_files_metadata(group, log) {
                 let groups = if disallow_cross_device {
-                    group.partition_by_key(|p| p.metadata.device_id())
+                    group.partition_by_key(|p| p.entry_device_id())
                 } else {
                     vec![group]
                 };
